@@ -99,6 +99,16 @@ pub fn content(rng: &mut Rng, kind: usize, n: usize) -> Vec<i16> {
                     0
                 }
             }
+            8 => -1,
+            9 => -(1 + (n % 7) as i16),
+            10 => {
+                // sum of the first 64 is an exact negative multiple of 64
+                if i < 32 {
+                    -3
+                } else {
+                    1
+                }
+            }
             _ => -((rng.next() % 5) as i16),
         })
         .collect()
@@ -119,7 +129,7 @@ fn run(ctx: &mut Ctx) {
             }
         }
     }
-    let ncont = ctx.tier.pick(4, 9);
+    let ncont = ctx.tier.pick(6, 12);
     ctx.cases("table", cells.len() as u64, |ctx, i, rng| {
         let (sup, kb, n, kl) = cells[i as usize];
         // sample counts around last_index as well
@@ -132,7 +142,7 @@ fn run(ctx: &mut Ctx) {
         }
         for n in ns {
             for c in 0..ncont {
-                let wf = content(rng, c, n);
+                let wf = content(rng, [3usize, 4, 8, 10, 6, 2, 0, 1, 5, 7, 9, 11][c], n);
                 for rs_kind in 0..10 {
                     let rs: u16 = match rs_kind {
                         0 => 0,
@@ -228,7 +238,7 @@ fn run(ctx: &mut Ctx) {
     let nrand = ctx.tier.pick(120_000, 3_000_000);
     ctx.cases("random", nrand, |ctx, _i, rng| {
         let n = 64 + rng.usize(40) + if rng.chance(0.05) { rng.usize(700) } else { 0 };
-        let kind = rng.usize(9);
+        let kind = rng.usize(12);
         let wf = content(rng, kind, n);
         let mut a = Adc::simple(rng.pick(&A16_MACS).1, rng.below(32) as u8, wf);
         if rng.chance(0.3) {
